@@ -784,7 +784,10 @@ static int mode_order(int cases, int base_exp)
                 o.set("alpha_jump", 0.7081 * 1.3); o.set("DirBC_Interior", dirbc); o.set("R0", R0); o.set("stencilDistributionMethod", strat);
                 // the extrapolated variant cycles through the three extrapolation modes and both FMG settings
                 const int mode = extrap == 0 ? 0 : 1 + (c % 3), fmg = extrap == 0 ? 0 : (c / 3) % 2;
-                o.set("cacheDensityProfileCoefficients", 1); o.set("cacheDomainGeometry", 1); o.set("maxOpenMPThreads", 4); o.set("extrapolation", mode);
+                // the give strategy also runs without the caches (the uncached branches of build_rhs_f / the operators evaluate the
+                // geometry and the coefficients themselves): derived from the case number, so the random stream stays as calibrated
+                const int cg = strat == 1 ? c % 2 : 1, cc = strat == 1 ? (c / 2) % 2 : 1;
+                o.set("cacheDensityProfileCoefficients", cc); o.set("cacheDomainGeometry", cg); o.set("maxOpenMPThreads", 4); o.set("extrapolation", mode);
                 o.set("FMG", fmg); o.set("FMG_iterations", 2); o.set("FMG_cycle", 0); o.set("multigridCycle", 0); o.set("preSmoothingSteps", 1); o.set("postSmoothingSteps", 1); o.set("maxIterations", 150);
                 o.set("absoluteTolerance", 1e-13); o.set("relativeTolerance", 1e-12); o.set("residualNormType", 0); o.set("maxLevels", -1);
                 // the discretisation error does not depend on the cycle: a W(2,2) cycle keeps the annulus-like cases away from the
@@ -798,7 +801,8 @@ static int mode_order(int cases, int base_exp)
                 e2 += (div ? "," : "") + hex(a ? *a : -1.0);
                 einf += (div ? "," : "") + hex(b ? *b : -1.0);
             }
-            printf("ORD geometry=%d problem=%d alpha=%d beta=%d dirbc=%d R0=%g strat=%d extrap=%d mode=%d fmg=%d base_exp=%d e2=%s einf=%s\n", geometry, problem, alpha, beta, dirbc, R0, strat, extrap,
+            printf("ORD geometry=%d problem=%d alpha=%d beta=%d dirbc=%d R0=%g strat=%d cachegeo=%d cachecoef=%d extrap=%d mode=%d fmg=%d base_exp=%d e2=%s einf=%s\n", geometry, problem, alpha, beta, dirbc, R0, strat,
+                   strat == 1 ? c % 2 : 1, strat == 1 ? (c / 2) % 2 : 1, extrap,
                    extrap == 0 ? 0 : 1 + (c % 3), extrap == 0 ? 0 : (c / 3) % 2, base_exp, e2.c_str(), einf.c_str());
         }
     }
